@@ -1,4 +1,49 @@
-import Emitter.Model.Broker
+/-
+  C08 — A connection that ends leaves nothing behind; its last will fires once (broker model).
+-/
+import Emitter.Lemmas.Broker
 namespace Emitter.C08
-theorem placeholder : True := trivial
+open Emitter Emitter.Trie Emitter.Security Emitter.Broker
+
+/-- When a connection ends, every subscription it held is removed (ordinary, presence-change
+and link-created alike: they all live in the same counters), nothing is delivered to it any
+more, other connections are untouched and the connection counter goes down by one. -/
+theorem close_cleans (auth : Auth) (b : B) (name : String) (c : Conn) (h : Sync b)
+    (hc : b.conn? name = some c) (ha : c.alive = true) :
+    let r := step auth b name .close
+    (∃ c', r.1.conn? name = some c' ∧ c'.alive = false ∧ c'.counters = []) ∧
+    (∀ p, (p, c.key) ∉ r.1.trie.root.abs) ∧
+    (∀ c₂ ∈ b.conns, c₂.name ≠ name → c₂ ∈ r.1.conns) ∧
+    r.1.open_ = b.open_ - 1 ∧
+    (∀ ssid excl pkt, (name, pkt) ∉ deliver r.1 ssid excl pkt) :=
+  Broker.close_cleans auth b name c h hc ha
+
+/-- the last will is published iff one was supplied with a key that allows publishing to the
+(static) will channel … -/
+theorem will_fires_iff (auth : Auth) (b : B) (c : Conn) :
+    (∃ g, c.hasConnect = true ∧ c.willFlag = true ∧ (parseChannel c.willTopic).ctype = chStatic ∧
+        auth b.banned (parseChannel c.willTopic) permWrite = some g ∧ g.has permExtend = false ∧
+        (lastWill auth b c).2 = deliver (lastWill auth b c).1 (g.contract :: (parseChannel c.willTopic).query) none
+                                  (.pub (parseChannel c.willTopic).channel c.willMessage)) ∨
+    ((¬ ∃ g, c.hasConnect = true ∧ c.willFlag = true ∧ (parseChannel c.willTopic).ctype = chStatic ∧
+        auth b.banned (parseChannel c.willTopic) permWrite = some g ∧ g.has permExtend = false) ∧
+      lastWill auth b c = (b, [])) := Broker.will_fires_iff auth b c
+
+/-- … and exactly once: a closed connection is never served again -/
+theorem will_once (auth : Auth) (b : B) (name : String) (c : Conn) (r : Req)
+    (hc : b.conn? name = some c) (ha : c.alive = false) : step auth b name r = (b, []) :=
+  Broker.dead_silent auth b name c r hc ha
+
+/-- one 'unsubscribe' presence event per subscription the connection held -/
+theorem presence_leave (b : B) (c : Conn) (ssid : Path) (channel : Bytes) (h1 : ∀ ctr ∈ c.counters, ctr.count = 1) :
+    (unsubscribeConn b c ssid channel).2 =
+      if c.counters.any (·.ssid == ssid) then
+        notify (unsubscribeConn b c ssid channel).1 "unsubscribe"
+          { c with counters := c.counters.filter (·.ssid != ssid) } ssid channel
+      else [] := Broker.unsubscribeConn_out b c ssid channel h1
+
+/-- the invariant the above rest on holds after every history -/
+theorem sync_step (auth : Auth) (b : B) (name : String) (r : Req) (h : Sync b) :
+    Sync (step auth b name r).1 := Broker.sync_step auth b name r h
+
 end Emitter.C08
